@@ -1950,6 +1950,9 @@ def run_C13(pid, tier, seed, model_ok=True):
             b'\xef\xbb\xbf{"release_version":"' + r1 + b'","queued_events":[]}', b'{"release_version":"' + r1 + b'","queued_events":[]} x',
             b' \n{"release_version" : "' + r1 + b'" , "queued_events" : [ ] }\n\n', b'null', b'', b'{', b'{\n  "release_version": "' + r1 + b'",\n  "queued_events": [',
         ]
+        # long messages with a multi-byte character at every offset around 256 bytes (whatever a later call cuts or measures)
+        for k_ in range(4):
+            sj_edges.append(b'{"release_version":"' + r1 + b'","queued_events":[' + e1.replace(b'"message":null', b'"message":"' + b'a' * (253 + k_) + '\u00e9'.encode('utf-8') * 40 + b'"') + b'}]}')
         stexts = list(sj_edges)
         for _ in range(40 if tier == 'quick' else 1500):
             b_ = jsontext.render(rnd, sj_tree)
